@@ -554,6 +554,16 @@ func contractHasProperty(c *Contract, prop string) bool {
 			return true
 		}
 	}
+	for _, ac := range []*AllowedCalls{c.AllowedCalls, c.ForbiddenCalls} {
+		if ac != nil && strings.HasPrefix(ac.Tag, prop+".") {
+			return true
+		}
+	}
+	for _, inv := range c.Inventory {
+		if strings.HasPrefix(inv.Tag, prop+".") {
+			return true
+		}
+	}
 	return false
 }
 
